@@ -11,14 +11,32 @@
    "One vote per oracle and item" is the clause [NoDup (f ob)] for every observation. *)
 Require Import Verif.Model.Base Verif.Model.Consensus Verif.Model.ExecMerge Verif.Proofs.ExecMergeP.
 
-(* A merged commit report of chain k was reported identically, under key k, by >= f_k+1 distinct oracles. *)
+(* A merged commit report under chain key k is a report OF chain k (validateCommitReportKeys) and was reported
+   identically, under key k, by >= f_dest+1 distinct oracles: commit reports are destination data and are counted at
+   the destination's f (holds after the repair of F75). *)
 Theorem C07_commit : forall sup dest fchain aos r k l x,
   NoDup (map fst aos) -> validated sup dest fchain aos ->
-  merge_commits fchain aos = Ok r -> In (k, l) r -> In x l ->
-  exists f, In (k, f) fchain /\ supported_by (commits_at k) (f_plus_1 f) aos x /\
-            (forall o ob, In (o, ob) aos -> NoDup (commits_at k ob)).
+  merge_commits dest fchain aos = Ok r -> In (k, l) r -> In x l ->
+  In k (keys fchain) /\ c_src x = k /\
+  supported_by (commits_at k) (f_plus_1 (f_dest dest fchain)) aos x /\
+  (forall o ob, In (o, ob) aos -> NoDup (commits_at k ob)).
 Proof. exact merge_commits_sound. Qed.
 Print Assumptions C07_commit.
+
+(* Before the repair (F75) the threshold was that of the chain key the report was filed under and the key was not tied
+   to the report's SourceChain: two oracles that do not read chain 2 (f = 1) - fewer than f_dest + 1 = 3 - got a report
+   of chain 1 agreed under key 2.  The repaired merge agrees nothing there and the repaired validation refuses the
+   observations. *)
+Theorem C07_commit_unfixed_refuted :
+  exists sup dest fchain aos r k l x,
+    NoDup (map fst aos) /\ validated_nokeys sup dest fchain aos /\
+    (forall o ob, In (o, ob) aos -> ~ In k (sup o)) /\
+    merge_commits_unfixed fchain aos = Ok r /\ In (k, l) r /\ In x l /\ c_src x <> k /\
+    (N.of_nat (length (supporters commit_eqb (commits_at k) x aos)) < f_plus_1 (f_dest dest fchain))%N /\
+    merge_commits dest fchain aos = Ok [] /\
+    forallb (fun a => validate (sup (fst a)) dest fchain (snd a)) aos = false.
+Proof. exact merge_commits_unfixed_refuted. Qed.
+Print Assumptions C07_commit_unfixed_refuted.
 
 (* A merged message of chain k was reported identically, under chain key k, by >= f_k+1 distinct oracles
    (holds after the repair of F13a: validateMessageKeys). *)
@@ -80,7 +98,7 @@ Print Assumptions C07_costly_unfixed_refuted.
 Theorem C07_non_blocking : forall sup bigF dest fchain aos,
   validated sup dest fchain aos -> (bigF <= Z.of_nat (length aos))%Z ->
   exists cs ms ts,
-    merge_commits fchain aos = Ok cs /\ merge_msgs fchain aos = Ok ms /\ merge_tokens fchain aos = Ok ts /\
+    merge_commits dest fchain aos = Ok cs /\ merge_msgs fchain aos = Ok ms /\ merge_tokens fchain aos = Ok ts /\
     get_consensus bigF dest fchain aos =
       Ok (mkMerged cs ms ts (merge_costly (f_dest dest fchain) aos) (merge_nonces (f_dest dest fchain) aos)).
 Proof. exact get_consensus_ok. Qed.
@@ -96,12 +114,12 @@ Proof. exact non_blocking_unfixed_refuted. Qed.
 Print Assumptions C07_non_blocking_unfixed_refuted.
 
 (* ... and every item with enough distinct reporters is delivered, whatever the other observations hold. *)
-Theorem C07_commit_complete : forall sup dest fchain aos k f x rs,
+Theorem C07_commit_complete : forall sup dest fchain aos k x rs,
   NoDup (map fst aos) -> validated sup dest fchain aos ->
-  In (k, f) fchain ->
+  In k (keys fchain) ->
   NoDup rs -> rs <> [] -> (forall o, In o rs -> exists ob, In (o, ob) aos /\ In x (commits_at k ob)) ->
-  (f_plus_1 f <= N.of_nat (length rs))%N ->
-  exists r l, merge_commits fchain aos = Ok r /\ In (k, l) r /\ In x l.
+  (f_plus_1 (f_dest dest fchain) <= N.of_nat (length rs))%N ->
+  exists r l, merge_commits dest fchain aos = Ok r /\ In (k, l) r /\ In x l.
 Proof. exact merge_commits_complete. Qed.
 Print Assumptions C07_commit_complete.
 
@@ -150,9 +168,9 @@ Theorem C07_token_non_blocking_refuted :
 Proof. exact token_non_blocking_refuted. Qed.
 Print Assumptions C07_token_non_blocking_refuted.
 
-(* C07_threshold_chain (observation F13b, not a theorem): commit reports are read from the destination chain but
-   merge_commits uses the threshold of the SOURCE key k ([In (k, f) fchain] above), and nonces / costly ids use
-   [f_dest dest fchain], which is 0 (one reporter suffices) when fChain has no entry for the destination. *)
+(* C07_threshold_chain: commit reports, nonces and costly ids are destination data and use [f_dest dest fchain] (commit
+   reports since the repair of F75, which was observation F13b), which is 0 (one reporter suffices) when fChain has no
+   entry for the destination; messages and token data use the f of their source chain key. *)
 
 (* ===================== System level: one whole cycle of one DON (Model/ExecSys.v, Proofs/ExecSysP.v) =====================
    [exec_round] is Plugin.Outcome composed from the models of C07 (merges), C08 (report builder) and the state
@@ -169,11 +187,11 @@ Require Verif.Proofs.ExecReportP.
    validated observation lists of distinct oracles, any previous outcome): if message mm is in a chain report r of the
    execute report produced by the Filter round, then
    (i)   its commit report x (root, interval, source chain, executed list, timestamp: the full item) was reported
-         identically by >= f_j + 1 distinct oracles in the GetCommitReports round, where j is the CHAIN KEY the report was
-         filed under - not the destination's f (commit reports are destination data) and not necessarily the report's
-         own source chain: ValidateObservation checks neither (see C09_cycle_liveness_poisoned_refuted for what that
-         allows); the chain report was built from exactly that pending report, carried unchanged through the GetMessages
-         outcome, and the message lies in its interval;
+         identically by >= f_dest + 1 distinct oracles in the GetCommitReports round, under the key of its own source
+         chain - commit reports are destination data and are agreed at the destination's f (repairs of F75; before
+         them: at the f of whatever chain key the report was filed under, C09_cycle_liveness_poisoned_unfixed_refuted);
+         the chain report was built from exactly that pending report, carried unchanged through the GetMessages outcome,
+         and the message lies in its interval;
    (c)   mm is not executed according to that agreed commit report;
    (ii)  the message xm (full content, id) was reported identically by >= f_k + 1 distinct oracles under its own source
          chain key k in the GetMessages round;
@@ -198,8 +216,8 @@ Theorem C07_used_needs_quorum_cycle :
   exec_round hash zero leaf_hash enc_size tree_gas max_size max_gas nonce_key bigF dest fc3 o2 aos3 = Ok o3 ->
   forall (r : creport) (mm : ExecReport.msg), In r (o_report o3) -> In mm (r_msgs r) ->
     ExecReport.m_src mm = r_src r /\
-    exists (x : xcommit) (j : N) (fj : Z) (cd2 : cdata) (xm : xmsg) (fk : Z) (i p : nat) (td : tokdata),
-      In (j, fj) fc1 /\ quorum (xcommits_of j) (f_plus_1 fj) aos1 x /\
+    exists (x : xcommit) (cd2 : cdata) (xm : xmsg) (fk : Z) (i p : nat) (td : tokdata),
+      quorum (xcommits_of (r_src r)) (f_plus_1 (EM.f_dest dest fc1)) aos1 x /\
       c_src (xc_cd x) = r_src r /\
       PS.in_range (c_start (xc_cd x)) (c_end (xc_cd x)) (ExecReport.m_seq mm) = true /\
       In (xc_cd x) (o_pending o1) /\
